@@ -36,11 +36,11 @@ def parseBody : Nat → List Str → Body → Option (Body × List Str)
       if t == ")".toList then some (b, r)
       else if t == "U".toList then
         match r with
-        | m :: n :: r2 =>
-          if n == "-".toList then parseBody fuel r2 { b with uses := ⟨m, none⟩ :: b.uses }
-          else match takePairs (natOf n) r2 [] with
-            | some (ps, r3) => parseBody fuel r3 { b with uses := ⟨m, some ps⟩ :: b.uses }
-            | none => none
+        | m :: fl :: n :: r2 =>
+          -- U <module> <o = ONLY list | a = no ONLY> <number of items> (<local> <remote>)*
+          match takePairs (natOf n) r2 [] with
+          | some (ps, r3) => parseBody fuel r3 { b with uses := ⟨m, fl == "o".toList, ps⟩ :: b.uses }
+          | none => none
         | _ => none
       else if t == "D".toList then
         match r with
